@@ -828,6 +828,15 @@ package engine
 //@   at call reflect.New assert [C03] of-the-pattern-type: arg0 == r.Type
 //@   at call engine.setValue assert [C03] pointer-to-what-the-target-replacer-built: arg0 == relem(ret("reflect.New", 0)) && arg1 == raddr(x)
 //@   ensures [C03] the-built-pointer-is-returned: err == nil ==> v == relem(ret("reflect.New", 0))
+//@   at call engine.checkRebuilt assert [C07,C08] every-rebuilt-node-is-checked-before-it-is-handed-on: arg0 == relem(ret("reflect.New", 0))
+//@   ensures [C07,C08] a-node-that-fails-the-check-is-not-handed-on: ret("engine.checkRebuilt", 0) != nil ==> err != nil
+
+// A node rebuilt from the '+' pattern whose elisions stand for nothing can lack a part go/ast indexes
+// unconditionally (AssignStmt.Pos / End): such an assignment is an error of the replacement, not a crash.
+//@ func checkRebuilt(v) (err)
+//@   assigns nothing
+//@   ensures [C07,C08] an-assignment-left-without-a-side-is-rejected: (rvIface(v).typ == dyn("*go/ast.AssignStmt") && rvIface(v).val != nil && (len(as("*go/ast.AssignStmt", rvIface(v).val).Lhs) == 0 || len(as("*go/ast.AssignStmt", rvIface(v).val).Rhs) == 0)) ==> err != nil
+//@   ensures [C03] everything-else-is-accepted: !(rvIface(v).typ == dyn("*go/ast.AssignStmt") && rvIface(v).val != nil && (len(as("*go/ast.AssignStmt", rvIface(v).val).Lhs) == 0 || len(as("*go/ast.AssignStmt", rvIface(v).val).Rhs) == 0)) ==> err == nil
 
 //@ func (r InterfaceReplacer) Replace(d, cl, pos) (v, err)
 //@   requires r.Replacer != nil
